@@ -174,12 +174,13 @@ func DecodeFile(r io.Reader, options ...Option) (*File, error) {
 LoopBoxes:
 	for {
 		var box Box
+		var extraHdr uint64 // Header bytes in the input that are not part of box.Size()
 		var err error
 		switch f.fileDecMode {
 		case DecModeLazyMdat:
-			box, err = DecodeBoxLazyMdat(boxStartPos, rs)
+			box, extraHdr, err = decodeBoxLazyMdatAndExtraHdr(boxStartPos, rs)
 		case DecModeNormal:
-			box, err = DecodeBox(boxStartPos, r)
+			box, extraHdr, err = decodeBoxAndExtraHdr(boxStartPos, r)
 		default:
 			return nil, fmt.Errorf("unknown DecFileMode=%d", f.fileDecMode)
 		}
@@ -235,7 +236,7 @@ LoopBoxes:
 		}
 		f.AddChild(box, boxStartPos)
 		lastBoxType = boxType
-		boxStartPos += boxSize
+		boxStartPos += boxSize + extraHdr
 	}
 	f.tfra = nil // Not needed anymore
 	return f, nil
